@@ -88,6 +88,119 @@ theorem eq_trans (f : Nat) (h : Heap) (u v w : V) (tu tv tw : Tree)
   rw [hb'', hiff''.mpr ((hiff.mp h1).trans (hiff'.mp h2))]
 
 
+/-! ## assign_spec: assignment leaves the target equal to the assigned value, also for a source inside the target -/
+
+/-- does the statement mention root variable `k`? -/
+def mentions (k : Nat) : Op → Bool
+  | .setLit p _ => p.root == k
+  | .setType p _ => p.root == k
+  | .setV p q => p.root == k || q.root == k
+  | .app p q => p.root == k || q.root == k
+  | .appLit p _ => p.root == k
+  | .resize p _ => p.root == k
+  | .removeAt p _ _ => p.root == k
+  | .removeKey p _ => p.root == k
+  | .clear p => p.root == k
+  | .extend p q => p.root == k || q.root == k
+  | .clone j q => j == k || q.root == k
+  | .copy j q => j == k || q.root == k
+  | .drop j => j == k
+  | .ctorLit j _ => j == k
+  | .ctorType j _ => j == k
+  | .ctorKV j _ q => j == k || q.root == k
+
+/-- The full statement: in every state reached by a guarded history, every executed `p = q` (any paths; `q` may
+lie inside `p`) leaves the Var at `p` readable, holding the value `q` had, denoting the tree `q` denoted before. -/
+def assign_spec_full : Prop :=
+  ∀ (n : Nat) (ops : List Op) (p q : Path) (t : Loc) (σ1 σ' : State) (src : V) (f : Nat) (tr : Tree),
+    resolveMut true (run true (initState n) ops) (.slot p.root) p.steps = (σ1, .ok t) →
+    opSetV σ1 t q = .ok σ' → cget σ1 q = .ok src → content f σ1.heap src = some tr →
+    readLoc σ' t = .ok src ∧ content f σ'.heap src = some tr
+
+/-- **assign_spec_partial** — for EVERY state satisfying the reference-count invariant (hence every state reached
+by a history covered by `history_safe_partial`), every valid target location `t` and every source path `q`
+(`q` may denote an element or property, at any depth, of the Var at `t`: `v = v[0]`, `v = v["a"]["b"]`), if the
+guarded assignment is executed then
+* a Var read at `t` afterwards is exactly the source value, and when `t` is a root variable it is readable;
+* the source value denotes afterwards the same tree as before the assignment (so the target equals, by
+  `eq_iff_content`, every Var that denotes that tree);
+* the invariant still holds (nothing was released twice, nothing that is still referenced was released).
+Missing for `assign_spec_full`: that a target nested inside a container is still readable after the release of
+its old content (true in acyclic heaps; needs the acyclicity invariant that is not formalised). -/
+theorem assign_spec_partial (σ σ' : State) (t : Loc) (q : Path) (inv : Inv σ []) (hl : ValidLoc σ t)
+    (h : opSetV σ t q = .ok σ') :
+    ∃ src, cget σ q = .ok src ∧
+      (∀ v', readLoc σ' t = .ok v' → v' = src) ∧
+      (∀ k, t = .slot k → readLoc σ' t = .ok src) ∧
+      (∀ f tr, content f σ.heap src = some tr → readLoc σ' t = .ok src → content f σ'.heap src = some tr) ∧
+      Inv σ' [] := by
+  unfold opSetV at h
+  rcases inv.cget q with ⟨e, h1, _⟩ | ⟨src, h1, hsrc⟩
+  · rw [h1] at h; cases h
+  · rw [h1] at h
+    simp only [] at h
+    cases hg : cycleGuard σ.heap (parentOf t) src with
+    | error e => rw [hg] at h; cases h
+    | ok u =>
+      rw [hg] at h
+      simp only [] at h
+      have hlive := Held.live inv hsrc
+      have hwc := cycleGuard_ok hg
+      have hreach : ∀ B, parentOf t = some B → ∃ f', reaches f' σ.heap B src = .ok false := by
+        intro B hB
+        rw [hB] at hwc
+        exact ⟨_, hwc⟩
+      have hself : ∀ id, parentOf t = some id → handleOf src ≠ some id := by
+        intro id hid
+        obtain ⟨f', hf'⟩ := hreach id hid
+        cases f' with
+        | zero => simp [reaches] at hf'
+        | succ f' => exact reaches_false_ne hf'
+      obtain ⟨σ2, ha, inv2, _⟩ := inv.assignV hl hlive hself
+      rw [ha] at h; cases h
+      obtain ⟨s1, s2, s3⟩ := inv.assignV_spec hl hlive hself hreach ha
+      exact ⟨src, h1, s1, s2, s3, inv2⟩
+
+/-- the hypotheses of `assign_spec_partial` are met by `v = v[0]` on `v = [[1,2],5]`: the assignment is executed and
+`v` then holds the handle of the former element -/
+example : ((opSetV (run true (initState 1)
+      [.setLit ⟨0, [.idx 0, .idx 0]⟩ (.int 1), .setLit ⟨0, [.idx 0, .idx 1]⟩ (.int 2), .setLit ⟨0, [.idx 1]⟩ (.int 5)])
+    (.slot 0) ⟨0, [.idx 0]⟩).toOption.map (·.slots)) = some [V.arr 1] := by decide
+
+/-! ## clone_deep: clone() yields a deep copy that no later mutation of the original can change -/
+
+/-- The full statement, over histories: after `root k = q.clone()`, no sequence of statements that do not mention
+root `k` changes the tree root `k` denotes. -/
+def clone_deep_full : Prop :=
+  ∀ (n k : Nat) (ops1 ops2 : List Op) (q : Path) (f : Nat) (tr : Tree),
+    (∀ op ∈ ops2, mentions k op = false) →
+    content f (run true (initState n) (ops1 ++ [.clone k q])).heap (slotV (run true (initState n) (ops1 ++ [.clone k q])) k) = some tr →
+    content f (run true (initState n) (ops1 ++ [.clone k q] ++ ops2)).heap
+      (slotV (run true (initState n) (ops1 ++ [.clone k q] ++ ops2)) k) = some tr
+
+/-- **clone_deep_partial** — for EVERY heap and value (no invariant needed): `clone()` only appends blocks; the
+result denotes the same tree as the original; and it denotes that tree in EVERY heap `h''` that still has the
+blocks the clone allocated (ids ≥ the old heap length) — whatever happened to all older blocks, i.e. to everything
+the original can reach: modified, released, reallocated.  Missing for `clone_deep_full`: the footprint theorem that
+statements not mentioning the clone's root never modify the clone's blocks (they are referenced only from that
+root: rc = 1 by `history_safe_partial`). -/
+theorem clone_deep_partial (f : Nat) (h h' : Heap) (v c : V) (t : Tree)
+    (hc : cloneV f h v = .ok (h', c)) (ht : content f h v = some t) :
+    (∃ y, h' = h ++ y) ∧ content f h' c = some t ∧ ∀ h'', KeepsFrom h.length h' h'' → content f h'' c = some t := by
+  obtain ⟨hy, hk⟩ := cloneSpec f h.length h h' v c t (Nat.le_refl _) hc ht
+  exact ⟨hy, hk h' (fun id _ b hb => ⟨b, hb, rfl, rfl⟩), hk⟩
+
+/-- a clone of `{"a": [1, "x"]}`: the copy still denotes that tree after every original block has been released -/
+example : ∀ h' c,
+    cloneV 5 [some ⟨true, [([97], V.arr 1)], 3, 1⟩, some ⟨false, [([], V.int 1), ([], V.sstr [120])], 3, 1⟩] (V.obj 0) = .ok (h', c) →
+    content 5 ((h'.set 0 none).set 1 none) c = some (Tree.obj [([97], Tree.arr [Tree.num (Dy.ofInt 1), Tree.str [120]])]) := by
+  intro h' c hc
+  refine (clone_deep_partial 5 _ h' _ c _ hc (by rfl)).2.2 _ ?_
+  intro id hid b hb
+  have h0 : id ≠ 0 := by simp at hid; omega
+  have h1 : id ≠ 1 := by simp at hid; omega
+  exact ⟨b, by rw [getB_set_ne _ h1, getB_set_ne _ h0]; exact hb, rfl, rfl⟩
+
 /-! ## history_safe: no sequence of operations touches freed memory or destroys a shared child twice -/
 
 /-- The full statement: for EVERY history of guarded statements from the initial state (any number of root
